@@ -116,6 +116,71 @@ def r11_5(prog: Program, rep: Report):
     rep.check(ok, "R11.5", fr.qualname, fr.loc, "forwardref() passes the resolved module to ForwardRef", "forwardref() builds the reference without a resolved module", detail="module-flow")
 
 
+def r11_7(prog: Program, rep: Report, rule="R11.7"):
+    """refs.forwardref(): a type is referenced under its own qualified name and module, flags and defaults intact."""
+    from . import c09
+
+    fr = prog.function("typelib.py.refs.forwardref")
+    ref = ("param", fr.params[0])
+    ok_name = ok_module = ok_flags = False
+    why_name = why_mod = ""
+    for p, r in P.returns(P.paths_of(prog, fr)):
+        if not T.is_call_to(r, "typing.ForwardRef"):
+            continue
+        nonstr = any((not pol) and T.is_call_to(g, "builtins.isinstance") and g[2] == (ref, ("ref", "builtins.str")) for g, pol in p.guards()) or any(pol and g[0] == "not" for g, pol in p.guards())
+        if not nonstr:
+            continue
+        name = r[2][0] if r[2] else None
+        # the name derives from qualname(ref) of the object that was passed in
+        qcalls = [s for s in T.walk(name) if s[0] == "call" and T.refname(s[1]) and s[2][:1] == (ref,)] if name is not None else []
+        if any(T.refname(c[1]) == f"{C.INSP}.qualname" for c in qcalls):
+            ok_name = True
+        elif name is not None:
+            other = [T.refname(s[1]) for s in T.walk(name) if s[0] == "call" and T.refname(s[1]) and T.refname(s[1]).startswith("typelib.")]
+            why_name = f"the reference name is computed by {[o.rsplit('.', 1)[-1] for o in other][:2]}"
+            if any(c09.drops_qualifier(prog, o) for o in other if o):
+                why_name += " which keeps only the last dotted component: a nested class is referenced under a name that resolves to nothing, or to another class, in its module"
+            if any(T.refname(s[1]) in (f"{C.INSP}.resolve_supertype", f"{C.INSP}.unwrap", f"{C.INSP}.origin") for s in T.walk(name) if s[0] == "call"):
+                why_name += "; the object is replaced by what it wraps before it is named: a NewType is referenced as its base type"
+        kw = dict(r[3])
+        mod = kw.get("module")
+        if mod is not None and T.is_call_to(mod, "typelib.py.refs._resolve_module_name"):
+            marg = mod[2][1] if len(mod[2]) > 1 else dict(mod[3]).get("module")
+            if marg is not None and T.contains(marg, lambda s: T.is_call_to(s, "builtins.getattr") and s[2][:2] == (ref, ("const", "__module__"))) and not T.contains(marg, lambda s: T.is_call_to(s, f"{C.INSP}.resolve_supertype", f"{C.INSP}.unwrap")):
+                ok_module = True
+            else:
+                why_mod = "the module is not the given object's own __module__"
+        ok_flags = kw.get("is_class") == ("param", "is_class") and kw.get("is_argument") == ("param", "is_argument")
+    rep.check(ok_name, rule, fr.qualname, fr.loc, "a type is referenced under inspection.qualname of the object itself", why_name or "the name of a non-string reference is not qualname(ref)", detail="name")
+    rep.check(ok_module, rule, fr.qualname, fr.loc, "…in the module given, else the object's own __module__", why_mod or "module of a non-string reference is not module or getattr(ref, '__module__')", detail="module")
+    rep.check(ok_flags, rule, fr.qualname, fr.loc, "is_class / is_argument are passed through", "is_class / is_argument are not passed to ForwardRef unchanged", detail="flags")
+    # defaults: string references to class-level qualifiers (ClassVar[...]) need is_class=True
+    import ast as _ast
+
+    dflt = {}
+    a = fr.node.args
+    for arg, d in zip(a.kwonlyargs, a.kw_defaults):
+        if d is not None:
+            try:
+                dflt[arg.arg] = _ast.literal_eval(d)
+            except Exception:
+                dflt[arg.arg] = "?"
+    rep.check(dflt.get("is_class") is True, rule, fr.qualname, fr.loc, "references default to is_class=True (a string reference may spell ClassVar[...])", f"forwardref() defaults to is_class={dflt.get('is_class')}: evaluating the string reference 'ClassVar[int]' raises TypeError", detail="is_class-default")
+    # module inferred from a dotted reference string: everything before the FIRST dot (the rest may be Outer.Inner)
+    rm = prog.function("typelib.py.refs._resolve_module_name")
+    rp = ("param", rm.params[0])
+    first = last = False
+    for p in P.paths_of(prog, rm):
+        for tm in p.all_terms():
+            for s in T.walk(tm):
+                if s[0] == "sub" and s[1][0] == "call" and s[1][1][0] == "attr" and s[1][1][1] == rp and s[1][2][:1] == (("const", "."),):
+                    if s[1][1][2] in ("split", "partition") and s[2] == ("const", 0):
+                        first = True
+                    if s[1][1][2] in ("rsplit", "rpartition"):
+                        last = True
+    rep.check(first and not last, rule, rm.qualname, rm.loc, "the module of a dotted reference string is the text before its first dot", "the module of a dotted reference string is cut at the last dot: 'mod.Outer.Inner' is looked for in a module 'mod.Outer'", detail="first-dot")
+
+
 def r11_6(prog: Program, rep: Report):
     f, ps = c09.graph_paths(prog)
     ok_root = ok_child = False
@@ -139,6 +204,7 @@ def run(prog: Program, rep: Report, tier: str):
     rep.rule("R11.3", "context double keying (shared with R05.1)", floor=4)
     rep.rule("R11.4", "context fallback through unwrap / forward reference (C16 rules)", floor=5)
     rep.rule("R11.5", "memoised reference resolvers are pure", floor=2)
+    rep.rule("R11.7", "refs.forwardref names a type by its own qualified name and module; defaults and dotted-string rule", floor=5)
     rep.rule("R11.6", "graph nodes carry (annotation, unwrapped); reference roots evaluated (shared with R09.4)", floor=4)
     r11_1(prog, rep)
     sub = Report("C11", tier)
@@ -154,6 +220,7 @@ def run(prog: Program, rep: Report, tier: str):
     c16.run(prog, sub, tier)
     absorb(rep, sub, {"R16.1": "R11.4", "R16.2": "R11.4", "R16.4": "R11.4", "R16.3": "R11.4"})
     r11_5(prog, rep)
+    r11_7(prog, rep)
     r11_6(prog, rep)
     sub = Report("C11", tier)
     sub.rule("R09.4", "", 0)
